@@ -35,7 +35,7 @@ ANCHORS = [
     ('pjrpc/client/integrations/pytest.py', 'PjRpcMocker._cleanup_matches'),
 ]
 FLOORS = {'*': {'op:add': 500, 'op:replace': 50, 'op:remove-method': 50, 'op:remove-endpoint': 30, 'op:reset': 30,
-                'op:call': 500, 'op:batch': 200, 'op:batch-of-one': 50, 'op:replace-negative-index': 20, 'once-exhausted-inside-batch': 10, 'passthrough': 50, 'refused': 50,
+                'op:call': 500, 'op:batch': 200, 'op:batch-of-one': 50, 'op:replace-negative-index': 20, 'op:restart': 50, 'backend:runs': 12, 'once-exhausted-inside-batch': 10, 'passthrough': 50, 'refused': 50,
                 'unpatched-method': 50, 'client:sync': 200, 'client:async': 200, 'round-robin>=3': 30, 'callback': 50,
                 'id:falsy': 30}}
 
@@ -138,6 +138,15 @@ def run_history(ctx, ops, passthrough, is_async):
                     calls = {ep: {} for ep in ENDPOINTS}
                     ctx.hit('op:reset')
                     continue
+                if name == 'restart':
+                    # the same mocker object stopped and started again (a module-level mocker shared by tests): stop() drops
+                    # the patches and the recorded calls, like leaving the `with` block does
+                    mocker.stop()
+                    mocker.start()
+                    model = {ep: {} for ep in ENDPOINTS}
+                    calls = {ep: {} for ep in ENDPOINTS}
+                    ctx.hit('op:restart')
+                    continue
             except Exception as e:
                 ctx.violation(f'{name}-raises:{type(e).__name__}', 'op:' + name, cls, exception=e, **wit)
                 return
@@ -239,6 +248,86 @@ def run_history(ctx, ops, passthrough, is_async):
 
 # ---- generation -----------------------------------------------------------------------------------------
 
+URLS = ['http://localhost/api/v1', 'https://rpc.example.com:443/api/v1', 'http://EXAMPLE.com/Api', 'http://h/a b?q=ü', 'http://h:80/',
+        'https://h/%7Euser/x', 'http://h/a/../b']
+
+
+def run_backend(ctx, backend, url, passthrough_probe):
+    """the library's own client backends under the mocker: the endpoint a patch is added for is the URL string the client was
+    built with, however the backend spells it internally"""
+    import importlib
+    is_async = backend in ('httpx-async', 'aiohttp')
+    try:
+        if backend == 'requests':
+            mod, target = importlib.import_module('pjrpc.client.backend.requests'), 'pjrpc.client.backend.requests.Client._request'
+            make = lambda: mod.Client(url)
+        elif backend == 'httpx':
+            mod, target = importlib.import_module('pjrpc.client.backend.httpx'), 'pjrpc.client.backend.httpx.Client._request'
+            make = lambda: mod.Client(url)
+        elif backend == 'httpx-async':
+            mod, target = importlib.import_module('pjrpc.client.backend.httpx'), 'pjrpc.client.backend.httpx.AsyncClient._request'
+            make = lambda: mod.AsyncClient(url)
+        else:
+            mod, target = importlib.import_module('pjrpc.client.backend.aiohttp'), 'pjrpc.client.backend.aiohttp.Client._request'
+            make = None
+    except Exception as e:
+        ctx.skip(f'backend-not-importable:{type(e).__name__}')
+        return
+    cls = ('backend', backend, url)
+    wit = dict(backend=backend, url=url)
+    mocker = PjRpcMocker(target, passthrough=False)
+    mocker.start()
+    try:
+        mocker.add(url, 'ma', result='patched')
+        mocker.add(url, 'mb', error=pjrpc.exceptions.JsonRpcError(code=5, message='m'), once=True)
+
+        async def adrive():
+            client = make() if make else mod.Client(url)
+            try:
+                r1 = await client.call('ma', 1)
+                b = await client.batch.add('ma', 2).add('ma', k=3).call()
+                try:
+                    await client.call('mb')
+                    e = None
+                except pjrpc.exceptions.JsonRpcError as ex:
+                    e = ex.code
+                return r1, list(b), e
+            finally:
+                close = getattr(client, 'close', None)
+                if close is not None:
+                    res = close()
+                    if hasattr(res, '__await__'):
+                        await res
+
+        def drive():
+            client = make()
+            r1 = client.call('ma', 1)
+            b = client.batch.add('ma', 2).add('ma', k=3).call()
+            try:
+                client.call('mb')
+                e = None
+            except pjrpc.exceptions.JsonRpcError as ex:
+                e = ex.code
+            return r1, list(b), e
+        st, out = clientside.outcome_of(adrive if is_async else drive, is_async)
+        ctx.hit('backend:runs')
+        if st != 'ret' or out != ('patched', ['patched', 'patched'], 5):
+            ctx.violation('patched-endpoint-of-a-library-backend-not-answered-by-its-patches' + (f':raises-{type(out).__name__}' if st == 'exc' else ''),
+                          'backend', cls, outcome=[st, out], **wit)
+            return
+        stub = mocker.calls.get(url, {}).get(('2.0', 'ma'))
+        n = stub.call_count if stub is not None else 0
+        if n != 3:
+            ctx.violation('recorded-calls-differ:library-backend', 'backend', cls, recorded=n, expected=3, **wit)
+            return
+        ctx.ok(f'backend:{backend}', cls, sample=wit)
+    finally:
+        try:
+            mocker.stop()
+        except Exception:
+            pass
+
+
 def call_ops(rng, rich):
     ids = [1, 7, 0, 'x', '']
     out = []
@@ -276,6 +365,7 @@ def mut_ops():
             out.append(['remove', ep, m])
         out.append(['remove', ep, None])
     out.append(['reset'])
+    out.append(['restart'])
     return out
 
 
@@ -284,7 +374,7 @@ def gen(ctx):
     full = ctx.thorough
     calls = call_ops(rng, True)
     muts = mut_ops()
-    reduced_m = [o for o in muts if o[0] == 'reset' or (o[1] == 'ep1' and (len(o) < 3 or o[2] in ('ma', None)))]
+    reduced_m = [o for o in muts if o[0] in ('reset', 'restart') or (o[1] == 'ep1' and (len(o) < 3 or o[2] in ('ma', None)))]
     reduced_c = [o for o in calls if o[1] == 'ep1']
     k = 0
 
@@ -323,6 +413,9 @@ def gen(ctx):
         if ops[-1][0] not in ('call', 'batch'):
             ops.append(rng.choice(calls))
         yield from emit(ops)
+    for backend in ('requests', 'httpx', 'httpx-async', 'aiohttp'):
+        for url in URLS:
+            yield 'backend', dict(backend=backend, url=url, passthrough_probe=False)
     # round-robin over >= 3 patches, once patches consumed inside batches, then further documents
     for ep in ENDPOINTS:
         base = [['add', ep, 'ma', 'result', False], ['add', ep, 'ma', 'error', False], ['add', ep, 'ma', 'callback', False],
@@ -337,4 +430,4 @@ def gen(ctx):
         yield from emit(once + [['call', ep, [['mb', [1], 1]]], ['remove', ep, 'ma'], ['call', ep, [['ma', [3], 3]]]])
 
 
-KINDS = {'history': run_history}
+KINDS = {'history': run_history, 'backend': run_backend}
